@@ -21,6 +21,7 @@ class Interrupter:
         self.count = 0
         self.fired = False
         self.where = None
+        self.frame_line = None
 
     def _local(self, frame, event, arg):
         if event == "line":
@@ -29,6 +30,9 @@ class Interrupter:
                 self.fired = True
                 self.where = (os.path.basename(frame.f_code.co_filename),
                               frame.f_lineno)
+                import linecache
+                self.frame_line = linecache.getline(
+                    frame.f_code.co_filename, frame.f_lineno)
                 raise SimInterrupt()
         return self._local
 
